@@ -47,6 +47,7 @@ func runC17McrewTimers(c *sim.Ctx, t *testing.T) {
 	npay := 0
 	newPayload := func() string { npay++; return fmt.Sprintf("p%d", npay) }
 	handlers := map[string]tmHandler{}
+	failing := map[string]bool{} // payloads for which the emitter reports an error after delivering
 	genHandler := func(id, payload string, depth int) {
 		if depth > 1 || !c.Chance(1, 3, "handler") {
 			return
@@ -73,6 +74,9 @@ func runC17McrewTimers(c *sim.Ctx, t *testing.T) {
 				plans[r] = append(plans[r], tmOp{kind: "observe"})
 			case 0, 1, 2:
 				op := tmOp{kind: "add", id: ids[c.Intn(len(ids), "id")], d: tmDelays[c.Intn(len(tmDelays), "d")], payload: newPayload()}
+				if c.Chance(1, 6, "emitfails") {
+					failing[op.payload] = true
+				}
 				genHandler(op.id, op.payload, 0)
 				plans[r] = append(plans[r], op)
 			case 3, 4:
@@ -134,6 +138,9 @@ func runC17McrewTimers(c *sim.Ctx, t *testing.T) {
 				}
 			}
 			lg.Add(sim.Ev{Kind: "fire.done", Val: p})
+			if failing[p] {
+				return fmt.Errorf("the service could not process %s", p)
+			}
 			return nil
 		}
 		ts = NewTimers(emitter)
